@@ -232,6 +232,10 @@ func keysOf(n int) []int {
 	return ks
 }
 
+// lastResult is the scheduler result of the most recent RunSched call (the exhaustive schedule
+// enumerator needs the option counts of the run it just caused; units run single-threaded).
+var lastResult sched.Result
+
 func RunSched(c ConcCase) pbt.Outcome {
 	var m sync2.Map[int, int]
 	model, bad := runSetup(&m, c.Setup)
@@ -256,6 +260,7 @@ func RunSched(c ConcCase) pbt.Outcome {
 		})
 	}
 	res := s.Run()
+	lastResult = res
 	var hist []Rec
 	for _, rs := range recs {
 		hist = append(hist, rs...)
@@ -371,13 +376,90 @@ var specSched = pbt.Register(&pbt.Spec[ConcCase]{
 		"(optionally Range) + schedule (<=90 choices; 0 = keep running, k = switch to k-th other enabled thread) driving the real code hook by hook; " +
 		"oracle = per-key linearizability of the recorded history (Wing-Gong) incl. a quiescent postlude (Load of every key, full Range), three-clause Range rule, no deadlock, no panic; " +
 		"non-trivial = two calls on one key (at least one mutator) from different threads overlap AND >=1 preemption at a library-internal hook",
-	Gen:   func(t *rapid.T) ConcCase { return genConc(t, true) },
-	Run:   RunSched, Quick: 12000, Thorough: 120000,
+	Gen: func(t *rapid.T) ConcCase { return genConc(t, true) },
+	Run: RunSched, Quick: 12000, Thorough: 120000,
 	Crashy: true, Retries: 30,
 	Assumes: []string{"explores sequentially-consistent interleavings at hook granularity; Go map iteration order inside dirtyLocked/Range is not controlled (verdict is computed on the history that actually ran)"},
 })
 
 func TestC04Sched(t *testing.T) { pbt.Check(t, specSched) }
+
+// ---------------------------------------------------------------- bounded-exhaustive schedules (thorough)
+
+// setup recipes that reach each internal layout of the Map (key 0/1 are the contended keys, key 3 is a bystander)
+var setupRecipes = [][]MOp{
+	{},                                   // zero map
+	{{K: "store", Key: 0}},               // key 0 only in dirty, read map amended
+	{{K: "store", Key: 0}, {K: "range"}}, // key 0 in the clean read map
+	{{K: "store", Key: 0}, {K: "range"}, {K: "del", Key: 0}},                       // nil entry in the read map
+	{{K: "store", Key: 0}, {K: "range"}, {K: "del", Key: 0}, {K: "store", Key: 3}}, // expunged entry, dirty non-nil, amended
+	{{K: "store", Key: 0}, {K: "range"}, {K: "store", Key: 3}},                     // key 0 clean, amended with a bystander
+	{{K: "store", Key: 3}, {K: "range"}, {K: "store", Key: 0}},                     // key 0 only in dirty, bystander clean
+	{{K: "store", Key: 0}, {K: "store", Key: 3}, {K: "load", Key: 0}},              // one miss away from promotion
+}
+
+var enumKinds = []string{"load", "store", "los", "lad", "del"}
+
+func enumPrograms(yield func(c ConcCase) bool) {
+	for _, setup := range setupRecipes {
+		// thread A: 1..2 ops on key 0; thread B: 1 op on key 0; plus a Range variant for B
+		var progsA [][]MOp
+		for _, k1 := range enumKinds {
+			progsA = append(progsA, []MOp{{K: k1, Key: 0}})
+			for _, k2 := range enumKinds {
+				progsA = append(progsA, []MOp{{K: k1, Key: 0}, {K: k2, Key: 0}})
+			}
+		}
+		var progsB [][]MOp
+		for _, k := range enumKinds {
+			progsB = append(progsB, []MOp{{K: k, Key: 0}})
+		}
+		progsB = append(progsB, []MOp{{K: "range"}}, []MOp{{K: "store", Key: 1}}, []MOp{{K: "load", Key: 3}})
+		for _, a := range progsA {
+			for _, b := range progsB {
+				if !yield(ConcCase{Setup: setup, Threads: [][]MOp{a, b}, Keys: 2}) {
+					return
+				}
+			}
+		}
+	}
+}
+
+var specSchedEnum = pbt.Register(&pbt.Spec[ConcCase]{
+	Property: "C04", Name: "C04.schedenum",
+	Rule: "E3 bounded-exhaustive (SmallCheck-style, stateless re-execution): catalogue of 8 setup recipes (zero / dirty-only / clean / nil entry / expunged entry / amended / one-miss-from-promotion) x thread A with 1..2 ops x thread B " +
+		"with 1 op (all five point operations on the contended key, Range, or an operation on another key); for each program ALL schedules with at most 2 (thorough: 3) non-default scheduling choices are executed (same RunSched, same oracle); " +
+		"non-trivial as for C04.sched. Go map iteration order is not controlled, so a re-execution may expose slightly different decision points; the enumeration follows what it sees",
+	Enum: func(shard, shards int, tier string, yield func(ConcCase) bool) {
+		bound := 2
+		if tier == "thorough" {
+			bound = 3
+		}
+		i := 0
+		enumPrograms(func(c ConcCase) bool {
+			i++
+			if i%shards != shard {
+				return true
+			}
+			ok := true
+			sched.EnumSchedules(bound, func(schedule []int) ([]int, bool) {
+				cc := c
+				cc.Sched = append([]int(nil), schedule...)
+				lastResult = sched.Result{}
+				if !yield(cc) {
+					ok = false
+					return nil, true
+				}
+				return lastResult.OptCounts, false
+			})
+			return ok
+		})
+	},
+	Run: RunSched, Exhaustive: true, Crashy: true, Retries: 30,
+	Assumes: []string{"exhaustive over schedules with <=2 (thorough <=3) non-default choices of the listed programs only; map iteration order nondeterminism can hide or duplicate a few decision points"},
+})
+
+func TestC04SchedEnum(t *testing.T) { pbt.Check(t, specSchedEnum) }
 
 // ---------------------------------------------------------------- E4 free-running stress
 
@@ -467,8 +549,8 @@ var specStress = pbt.Register(&pbt.Spec[ConcCase]{
 	Rule: "E4 free-running: the same programs (setup + 2..4 goroutines x 1..3 ops) released together by a spin barrier, GOMAXPROCS in {2,4,8,16}, each executed 40 times under the race detector; " +
 		"calls stamped with a global atomic counter before invocation/after return; same linearizability + Range oracle; any DATA RACE report kills the process and is a violation; " +
 		"non-trivial = some repetition had overlapping calls on one key from different goroutines",
-	Gen:   func(t *rapid.T) ConcCase { return genConc(t, false) },
-	Run:   RunStress, Quick: 250, Thorough: 4000,
+	Gen: func(t *rapid.T) ConcCase { return genConc(t, false) },
+	Run: RunStress, Quick: 250, Thorough: 4000,
 	Crashy: true, Retries: 200,
 	Assumes: []string{"free-running schedules are chosen by the Go runtime; windows are hit by repetition only"},
 })
